@@ -139,6 +139,15 @@ def run(ctx, res):
                 res.violations.append({'key': None, 'sig': 'roundtrip:' + kind, 'what': 'kind %s: parsed object %r, expected %r (row %r)' % (kind, obj, exp, row), 'replay': _small(case, [line])})
             else:
                 res.count('ok:' + kind)
+    # the same configurations one after the other in a single process: an option of one call must not leak into the next
+    small = [build_case(ctx.rng, 40, safe, pr) for safe, pr in variants + variants[::-1]]
+    indep = [r['impl'] for r in batch.run(small, want_spec=False)]
+    for c, a, b in zip(small, indep, family.run_sequence(ctx, small)):
+        res.evaluations += 1
+        if not family.same(a, b):
+            only = [x for x in (b[1] if b[0] == 'ok' else []) if a[0] == 'ok' and x not in set(a[1])][:3]
+            res.violations.append({'key': None, 'sig': 'sequence', 'what': 'a call made after other calls in the same process gives different lines than the same call alone, e.g. %r (safe_percent_encoding=%r, only_printable_chars=%r)'
+                                                                   % (only, c['cfg'].get('safe', ''), c['cfg'].get('printable', False)), 'replay': c})
     res.samples = [{'value': r[1], 'kind': 'all'} for r in cases[0]['sources'][0]['rows'][:6]]
 
 
